@@ -1081,7 +1081,7 @@ def g_vec(rng, ref: Ref, s: int, hot: list):
             route = "f"
         sample = node[names[0]]
         steps = "-"
-        if isinstance(sample, dict) and rng.random() < 0.8:
+        if isinstance(sample, dict) and sample and rng.random() < 0.8:
             steps = "f=" + rng.choice(sorted(sample))
         return f"ao:{s}:{route}:{form}:{d}:{fmt_path(path)}:{','.join(map(str, dates)) or '-'}:{steps}"
     if rng.random() < 0.03:
